@@ -150,7 +150,13 @@ def _inset(r, d):
     return (r[0] + d, r[1] + d, r[2] - d, r[3] - d)
 
 
+class TooBig(Exception):
+    pass
+
+
 class Oracle(object):
+    max_window = 40000
+
     """must / mustcoarse / mustnot by brute force over all meta tiles of the seeded levels."""
 
     def __init__(self, wd):
@@ -221,6 +227,10 @@ class Oracle(object):
         else:
             j0 = int(math.floor((region[1] - g.bbox[1]) / sy)) - 1
             j1 = int(math.floor((region[3] - g.bbox[1]) / sy)) + 1
+        ni = min(i1, nmx - 1) - max(i0, 0) + 1
+        nj = min(j1, nmy - 1) - max(j0, 0) + 1
+        if ni > 0 and nj > 0 and ni * nj > self.max_window:
+            raise TooBig()
         return [(i * mx, j * my, z) for j in range(max(j0, 0), min(j1, nmy - 1) + 1)
                 for i in range(max(i0, 0), min(i1, nmx - 1) + 1)]
 
@@ -419,12 +429,21 @@ def measure(wd, max_nodes=6000, policy=None):
     return root, aff, tiles, queries
 
 
-def build_world(wd, max_nodes=6000, plans=None):
+def build_world(wd, max_nodes=6000, plans=None, max_events=None):
     """-> (world record for TLC, ranker) or None if the walk would be too big"""
     m = measure(wd, max_nodes)
     if m is None:
         return None
     root, aff, tiles, queries = m
+    bound = 3 * sum(2 + 4 * len(lst) for (n, lst) in aff.values()) + 100
+    if max_events is not None and bound > 3 * max_events + 100:
+        return None
+    try:
+        must, coarse, allowed = Oracle(wd).sets()
+    except TooBig:
+        if wd.lattice:
+            raise
+        return None
     boxes = [root] + [box for (level, box) in aff] + [mb for (mb, con, inter) in tiles.values()]
     # integer coordinates are used as they are; otherwise (float grids; a MultiCoverage extent goes through
     # EPSG:4326 and back) coordinates are replaced by their ranks
@@ -436,8 +455,7 @@ def build_world(wd, max_nodes=6000, plans=None):
     rk.res = list(wd.grid.resolutions)
     # no run of the modelled walk has more events than this (every node: enter, report, per subtile at most
     # step_down, step_up, process, step_forward); three times that stops a walk that left the model
-    rk.bound = 3 * sum(2 + 4 * len(lst) for (n, lst) in aff.values()) + 100
-    must, coarse, allowed = Oracle(wd).sets()
+    rk.bound = bound
     w = {
         'name': wd.name,
         'levels': list(wd.levels),
@@ -1080,7 +1098,10 @@ def classify_miss(wd, t):
         return 'other'
     if wd.name not in _REACH:
         _REACH.clear()
-        _REACH[wd.name] = (ideal_reach(wd), ideal_reach(wd, per_level_inset=True))
+        try:
+            _REACH[wd.name] = (ideal_reach(wd), ideal_reach(wd, per_level_inset=True))
+        except TooBig:
+            return 'other'
     free, inset = _REACH[wd.name]
     return 'coarse-level-inset' if tuple(t) in free and tuple(t) not in inset else 'other'
 
@@ -1371,10 +1392,12 @@ def model_checking(ctx, items, thorough):
     excused = [k + 1 for k, it in enumerate(items) if it.excused]
     # pass 2: every interruption point x every throttle decision x continued runs
     runs = [('interrupt1', list(range(len(items))), 1)]
+    order = sorted(range(len(items)), key=lambda k: items[k].nev)
     if thorough:
-        order = sorted(range(len(items)), key=lambda k: items[k].nev)
         runs.append(('interrupt2', order[:max(6, 2 * len(items) // 3)], 2))
-        runs.append(('interrupt3', order[:8], 3))
+        runs.append(('interrupt3', order[:12], 3))
+    else:
+        runs.append(('interrupt2', order[:7], 2))
     for name, idxs, mi in runs:
         sub = [items[k].w for k in idxs]
         exc = [j + 1 for j, k in enumerate(idxs) if items[k].excused]
@@ -1533,14 +1556,14 @@ def random_items(ctx, n, max_nodes, max_events):
         idx += 1
         wd = random_world(ctx.seed, idx, near_border=(idx % 6 == 0))
         try:
-            bw = build_world(wd, max_nodes=max_nodes)
+            bw = build_world(wd, max_nodes=max_nodes, max_events=max_events)
         except tlc.MachineryError:
             raise
         if bw is None:
             continue
         w, rk = bw
-        # long walks make TLC's trace validation slow (the handed list is part of every state)
-        if rk.bound > 3 * max_events + 100 or len(json.dumps(w)) > 150000:
+        # (long walks make TLC's trace validation slow: the handed list is part of every state)
+        if len(json.dumps(w)) > 150000:
             continue
         items.append(Item(wd, w, rk))
     return items
@@ -1577,7 +1600,7 @@ def run(ctx):
     spec_to_code(ctx, items, thorough)
     # (T) lattice worlds and random real grids
     code_to_spec(ctx, items, 'lattice', 4 if thorough else 2)
-    ritems = random_items(ctx, 300 if thorough else 40, 1500 if thorough else 600, 2500 if thorough else 1000)
+    ritems = random_items(ctx, 800 if thorough else 80, 1500 if thorough else 600, 2500 if thorough else 1000)
     code_to_spec(ctx, ritems, 'random', 4 if thorough else 2)
 
     ctx.assumptions += [
